@@ -51,7 +51,7 @@ func (s *syn) typ(label string) {
 }
 
 func (s *syn) str(label string) string {
-	return rapid.SampledFrom([]string{`"A"`, `""`, `"a b"`, `"x\"y"`, `"CRC32"`, `"// no"`, `"é日"`, `"a\\"`}).Draw(s.t, label)
+	return rapid.SampledFrom([]string{`"A"`, `""`, `"a b"`, `"x\"y"`, `"CRC32"`, `"// no"`, `"é日"`, `"a\\"`, `"%d%%"`}).Draw(s.t, label)
 }
 
 func (s *syn) docOpt(label string) {
@@ -59,7 +59,7 @@ func (s *syn) docOpt(label string) {
 		return
 	}
 	if s.pick(label+"_hd", 3) == 0 {
-		docs := []string{"`d`", "``", "`消息`", "`// c`", "`a , b`", "` lead`"}
+		docs := []string{"`d`", "``", "`消息`", "`// c`", "`a , b`", "` lead`", "`50% of %v`"}
 		if !s.cfg.avoid("doc:multiline") {
 			docs = append(docs, "`two\nlines`")
 		}
@@ -339,7 +339,7 @@ const (
 	AnywhereComments             // at every token boundary
 )
 
-var commentBodies = []string{" c", "", " packet X {", "// double", " `tick` \"q\"", " 注释", " trailing  spaces  ", " @leftPad('0')"}
+var commentBodies = []string{" c", "", " packet X {", "// double", " `tick` \"q\"", " 注释", " trailing  spaces  ", " @leftPad('0')", " 100% sure %s %d", " c", " reserved", " reserved"}
 
 // Decorate attaches comments to tokens. Returns the number of comments placed.
 func Decorate(t *rapid.T, toks []Tok, mode CommentMode, label string, allowed func(siteClass string) bool) []string {
@@ -395,6 +395,9 @@ type RandLayout struct {
 	// KeepLines: only horizontal whitespace changes inside a line; line breaks stay where the
 	// plain layout puts them (used by relayouts that must keep comments on their token's line).
 	Wild bool
+	// Dense: most line breaks of the plain layout become single blanks, so several
+	// declarations share a line.
+	Dense bool
 }
 
 var gaps = []string{" ", " ", "  ", "\t", "\n", "\n\n", "\n    ", " \n\t", "\r\n", "   \n  \n "}
@@ -402,6 +405,12 @@ var gaps = []string{" ", " ", "  ", "\t", "\n", "\n\n", "\n    ", " \n\t", "\r\n
 // Gap implements Layouter.
 func (l RandLayout) Gap(i int, t Tok, must bool) string {
 	lbl := fmt.Sprintf("%s_g%d", l.Label, i)
+	if l.Dense {
+		if t.NL && i > 0 && rapid.IntRange(0, 3).Draw(l.T, lbl+"_join") != 0 {
+			return " "
+		}
+		return PlainLayout{}.Gap(i, t, must)
+	}
 	if !l.Wild {
 		// mostly conventional, sometimes odd
 		if rapid.IntRange(0, 5).Draw(l.T, lbl+"_odd") != 0 {
